@@ -1,4 +1,5 @@
 import CmModel.Color
+import CmProps.C06rt
 /-!
 # C06 — output keeps the input's format and reads back as exactly the judged colour
 -/
